@@ -67,7 +67,11 @@ WhyRep(ev) ==
   ELSE ""
 
 \* moving reference: premise and verdict
-MovTaints(ev) == Has(ev, "mov") /\ ev.kind = 1 /\ ev.mdref > NM40MM
+\* beyond 88.9 deg the single 90 deg longitude zone of a surface report is narrower than 45 NM (DESIGN.md 11.2, C05):
+\* a reference 40 NM away can lie more than half a zone away in longitude, so no decoder can honour the clause there
+\* (the fixed references of the generator stay within a few degrees of longitude; a moved one need not)
+PolarCapL == 4143000                         \* 88.9 deg on the lattice of CPR.tla (2^24 points per turn)
+MovTaints(ev) == Has(ev, "mov") /\ ev.kind = 1 /\ (ev.mdref > NM40MM \/ AbsU(ev.L) > PolarCapL)
 WhyMov(ev, tainted) ==
   IF ~Has(ev, "mov") \/ tainted \/ ~Bound(ev) THEN ""
   ELSE IF WhyOut(ev.mov, Tight(ev)) # "" THEN WhyOut(ev.mov, Tight(ev)) \o "_moving_reference"
